@@ -33,6 +33,8 @@ def _kwargs(call):
 
 
 def run(ctx):
+    from ..rules import round5 as _R5
+    _R5.rule_mode_parameter_only(ctx)
     prog = ctx.prog
     ti = prog.func(f"{P}._time_interpolator", "C02")
     ctx.touch(ti)
